@@ -238,6 +238,8 @@ fn run_check(def: &CheckDef, args: &Args) -> i32 {
     );
     let (acc, found) = run_many(def, base_seed, n, args.tier, args.workers);
     let wall = start.elapsed().as_secs_f64();
+    // taken before any minimisation (whose extent depends on a wall-clock budget)
+    let digest = (sim::GLOBAL_WORLDS.load(SeqCst), sim::GLOBAL_LOG_DIGEST.load(SeqCst));
 
     // group by signature, first occurrence (lowest run index) wins
     let mut by_sig: BTreeMap<String, (u64, Found, usize)> = BTreeMap::new();
@@ -344,11 +346,7 @@ fn run_check(def: &CheckDef, args: &Args) -> i32 {
         acc.faults,
         wall
     );
-    println!(
-        "  determinism digest: worlds={} oplog_xor={:016x}",
-        sim::GLOBAL_WORLDS.load(SeqCst),
-        sim::GLOBAL_LOG_DIGEST.load(SeqCst)
-    );
+    println!("  determinism digest: worlds={} oplog_xor={:016x}", digest.0, digest.1);
     if exit == 0 {
         println!("OK property={} held on everything explored", def.info.id);
     }
